@@ -1,7 +1,7 @@
 (* Props/C13.v — Conversion admission rules by height.
    Only statements, each closed by [exact]; proofs live in Lemmas/. *)
 From Model Require Import Examples.
-From Lemmas Require Import AdmissionLemmas LedgerLemmas.
+From Lemmas Require Import AdmissionLemmas LedgerLemmas HistoryLemmas ExecExact.
 From Gen Require Import Consts.
 Open Scope Z_scope.
 
@@ -35,6 +35,36 @@ Theorem C13_let_through_is_recorded : forall c h s hs rates avgs t,
     match record_batch c h hs rates avgs [t] s with Ok s' => BApplied s' | Fail code => BFail code | Panic code => BFail code end.
 Proof. exact accepted_conversion_is_recorded. Qed.
 Print Assumptions C13_let_through_is_recorded.
+
+(* "Every other well-formed conversion with sufficient funds is executed": when the rule lets a conversion through and it
+   can be priced (out), the batch IS applied — never rejected, never a failed block — with exactly one debit and one
+   credit of out = floor(input x source / destination) and no other balance touched; the side condition is only that the
+   credited cell stays within int64 (and it is necessary: single_conversion_room_necessary). *)
+Theorem C13_admissible_conversion_is_executed : forall c h s hs rates avgs t out,
+  is_conversion t = true ->
+  (c_PegnetConversionLimitActivation c <=? h) && is_peg_request t = false ->
+  check_txs c h s rates avgs [t] = None ->
+  conv_of c h rates avgs t = Some out ->
+  0 <= rate_of rates (tx_type t) -> 0 <= rate_of avgs (tx_type t) ->
+  0 <= rate_of rates (tx_conv t) -> 0 <= rate_of avgs (tx_conv t) ->
+  conv_room s t out ->
+  exists s',
+    apply_batch c h s hs [t] rates avgs = BApplied s' /\
+    (forall a ty, get_bal (bal s') a ty = get_bal (bal s) a ty
+        - (if (a =? tx_addr t) && (ty =? tx_type t) then tx_amt t else 0)
+        + (if (a =? tx_addr t) && (ty =? tx_conv t) then out else 0)) /\
+    conv_floor_spec c h rates avgs t out /\
+    hist s' = mark_exec hs h (hist s) /\
+    htxs s' = htxs (set_to_amount s hs 0 out) /\
+    Db.rates s' = Db.rates s /\ holding s' = holding s /\ is_replay s' hs = true /\ bank s' = bank s.
+Proof. exact single_conversion_executes_exactly. Qed.
+Print Assumptions C13_admissible_conversion_is_executed.
+Example C13_admissible_hypotheses_hold_somewhere :
+  let t := {| tx_addr := alice; tx_type := PTickerUSD; tx_amt := 10; tx_transfers := []; tx_conv := PTickerFCT |} in
+  let s := set_bal empty_db {[ (alice, PTickerUSD) := 100 ]} in
+  let rates : gmap ticker Z := {[ PTickerUSD := 100000000; PTickerFCT := 400000000 ]} in
+  check_txs ex_cfg 99 s rates rates [t] = None /\ conv_of ex_cfg 99 rates rates t = Some 2.
+Proof. vm_compute. split; reflexivity. Qed.
 
 (* ... and a refused one leaves every balance untouched (C03's all-or-nothing) *)
 Theorem C13_refused_is_inert : forall c cur rates avgs s e hh s' isp,
